@@ -737,7 +737,7 @@ var (
 )
 
 func init() {
-	Register("C08", MultiRunner0(func(tier string) ([]engine.Scenario, []string, []engine.Config, []string) {
+	c08base := MultiRunner0(func(tier string) ([]engine.Scenario, []string, []engine.Config, []string) {
 		d, dl := 4, 40*time.Second
 		if tier == "thorough" {
 			d, dl = 5, 8*time.Minute
@@ -764,6 +764,58 @@ func init() {
 			"validators confirm what the real Unsigned* queries list; the relayer uses the hub's LastObservedSignerSetTx as the contract's current set and the real *Confirmations queries (remembering what it has seen), any non-empty subset of confirmations, any remembered set/batch; contract events are decoded from the EVM logs and claimed by every bonded validator with a key",
 			"one hub user, deposits of 1000 and withdrawals of 300 (no bridge fee, no commission, 18 decimals) so that hub liabilities and contract balances must be equal whenever every contract event has been applied",
 			"the Minter multisig side of C08 is not executed (the Minter node is not in this repository); batch/valset confirmation attribution for Minter is covered by C16's query checks",
+			"admission grid: the hub refuses a withdrawal to the zero address (the ERC-20s built on the common libraries revert on such a transfer, and the whole batch with it; the WETH9 token of this harness does not, so the EVM cannot show it); every spelling of those 20 bytes that is an admissible address must be refused like the canonical one",
 		}
-	}))
+	})
+	Register("C08", func(tier string) *Runner {
+		b := c08base(tier)
+		return &Runner{Replay: b.Replay, Run: func(o RunOpts) Output {
+			out := b.Run(o)
+			n, bad := c08AdmissionGrid()
+			if cov, ok := out.Evidence["coverage"].(map[string]interface{}); ok {
+				cov["admission_grid_cases"] = n
+			}
+			if len(out.Violations) == 0 && out.InternalError == "" {
+				for _, v := range bad {
+					out.Violations = append(out.Violations, engine.Found{Violation: v, Reproduced: 5})
+				}
+			}
+			out.Summary += fmt.Sprintf(" admission_grid=%d", n)
+			return out
+		}}
+	})
+}
+
+// c08AdmissionGrid: what the hub refuses to send out in one spelling it refuses in every spelling.
+func c08AdmissionGrid() (int, []engine.Violation) {
+	var bad []engine.Violation
+	n := 0
+	zeros := []string{"0x" + strings.Repeat("0", 40), "0X" + strings.Repeat("0", 40)}
+	user := hub.User("c08-admission")
+	for _, chain := range []string{"ethereum", "bsc"} {
+		canon := mhubtypes.NewMsgSendToExternal(mhubtypes.ChainID(chain), user, zeros[0], sdk.NewInt64Coin("hub", 300), sdk.NewInt64Coin("hub", 1))
+		canon.ExternalRecipient = zeros[0]
+		refused := canon.ValidateBasic() != nil
+		for _, z := range zeros[1:] {
+			m := *canon
+			m.ExternalRecipient = z
+			n++
+			if refused && m.ValidateBasic() == nil {
+				bad = append(bad, engine.Violation{Property: "C08", Rule: "withdrawal_to_the_zero_address_admitted", Site: "MsgSendToExternal.ValidateBasic",
+					Detail: fmt.Sprintf("a withdrawal to %s on %s is refused, the same address spelled %s is admitted: it is batched, and a token that reverts on transfers to the zero address reverts the whole batch every time it is relayed", zeros[0], chain, z)})
+			}
+		}
+		ev := func(r string) *mhubtypes.TransferToChainEvent {
+			return &mhubtypes.TransferToChainEvent{EventNonce: 1, ExternalCoinId: "1", Amount: sdk.NewInt(1000), Fee: sdk.NewInt(1), Sender: hub.HexAddr("c08s"), ReceiverChainId: chain, ExternalReceiver: r, ExternalHeight: 10, TxHash: "0xc08"}
+		}
+		refusedEv := ev(zeros[0]).Validate("minter") != nil
+		for _, z := range zeros[1:] {
+			n++
+			if refusedEv && ev(z).Validate("minter") == nil {
+				bad = append(bad, engine.Violation{Property: "C08", Rule: "withdrawal_to_the_zero_address_admitted", Site: "TransferToChainEvent.Validate",
+					Detail: fmt.Sprintf("a transfer from Minter to %s on %s is refused, the same address spelled %s is admitted", zeros[0], chain, z)})
+			}
+		}
+	}
+	return n, bad
 }
